@@ -22,7 +22,8 @@ Inductive draw :=
   | DGauss (q : xq)         (* result of random.gauss(mu, sigma)                  *)
   | DPerm (p : list nat)    (* result of shuffle (as a permutation of indices)    *)
   | DSample (l : list nat)  (* result of sample                                   *)
-  | DVal (v : fval).        (* a value produced by unmodelled float arithmetic    *)
+  | DVal (v : fval)         (* a value produced by unmodelled float arithmetic    *)
+  | DRand (q : xq).         (* result of random.random(): a float in [0, 1)       *)
 
 Definition tape := list draw.
 
@@ -88,6 +89,13 @@ Definition get_gauss (t : tape) : res (xq * tape) :=
 Definition get_val (t : tape) : res (fval * tape) :=
   match t with DVal v :: r => Ok (v, r) | _ => Err ETape end.
 
+(* random.random() with its range contract 0 <= r < 1 (as an exact rational) *)
+Definition get_rand (t : tape) : res (Q * tape) :=
+  match t with
+  | DRand (Fin r) :: rest => if Qle_bool 0 r && negb (Qle_bool 1 r) then Ok (r, rest) else Err ETape
+  | _ => Err ETape
+  end.
+
 (* n consecutive draws of one kind *)
 Fixpoint get_unifs (n : nat) (t : tape) : res (list xq * tape) :=
   match n with
@@ -148,3 +156,13 @@ Proof. destruct r; simpl; [eauto|discriminate]. Qed.
 Lemma py_safe_bind {A B} (r : res A) (f : A -> res B) :
   py_safe r -> (forall a, r = Ok a -> py_safe (f a)) -> py_safe (bind r f).
 Proof. destruct r; simpl; auto. Qed.
+
+Lemma get_rand_ok t r t' : get_rand t = Ok (r, t') -> t = DRand (Fin r) :: t' /\ (0 <= r)%Q /\ (r < 1)%Q.
+Proof.
+  destruct t as [|d rest]; simpl; try discriminate. destruct d; try discriminate.
+  destruct q as [|q|]; try discriminate.
+  destruct (Qle_bool 0 q) eqn:A; simpl; [|discriminate]. destruct (Qle_bool 1 q) eqn:B; simpl; [discriminate|].
+  intro H; inversion H; subst. split; [reflexivity|]. split.
+  - now apply Qle_bool_iff.
+  - apply Qnot_le_lt. intro C. apply Qle_bool_iff in C. congruence.
+Qed.
